@@ -102,7 +102,7 @@ def main():
     hooks = [l.split()[0] for l in repo_commits if l.split(" ", 1)[1].startswith("verif:")]
     m = {
         "version": 1,
-        "setup_cmd": "cd /verif && ./run selftest",
+        "setup_cmd": "cd /verif && tools/setup.sh",
         "hooks": {
             "guard": "verif",
             "enable": "go build -tags verif (done by /verif/run for every check)",
